@@ -133,6 +133,16 @@ func (t *Text) GenerateOutput(textOnly bool) string {
 		}
 	}
 
+	// If the root is a block only by its style (<span style="display:block">), it is
+	// an inline element again once the attributes are stripped, and would run into
+	// the blocks before and after it. Give it a block of its own.
+	if rootTag := dom.TagName(clonedRoot); !CanBeNested(rootTag) && domutil.GetDefaultDisplayStyle(rootTag) == "inline" &&
+		domutil.GetDisplayStyle(clonedRoot) != "inline" {
+		wrapper := dom.CreateElement("div")
+		dom.AppendChild(wrapper, clonedRoot)
+		clonedRoot = wrapper
+	}
+
 	domutil.MakeAllLinksAbsolute(clonedRoot, t.PageURL)
 	domutil.StripAttributes(clonedRoot)
 	// TODO: if we allow images in WebText later, add StripImageElements().
